@@ -141,6 +141,8 @@ def validate_cases(tier, seed):
     cs.append({"shape": 12})                 # two defined fragments side by side, each may spread a further (defined / undefined / own) fragment
     cs.append({"shape": 13})                 # one argument position used twice (defaulted and plain variable, literal, null, left out)
     cs.append({"shape": 14})                 # a variable used bare / only inside a list or object literal (also nested)
+    cs.append({"shape": 16})                 # mutually recursive fragments holding a same-named field with a nested spread
+    cs.append({"shape": 17})                 # introspection depth through a fragment spread twice at different depths
     for site in range(5):                    # 15: a variable in a directive argument at each directive location
         cs.append({"shape": 15, "site": site})
     return cs
